@@ -56,16 +56,17 @@ def shapes(tier):
             "z": Z0,
         },
         "circle": {"kind": "circle", "center": [0.5, 0.25, Z0], "r": 1.75},
-        "sector": {"kind": "sector", "center": [0.25, -0.5, Z0], "r": 2.5, "heading": 0.6, "angle": 1.9},
+        "sector": {"kind": "sector", "center": [0.25, -0.625, Z0], "r": 2.5, "heading": -0.6, "angle": 1.9},
         "rect": {"kind": "rect", "pos": [0.5, 0.0, Z0], "heading": 0.5, "width": 2.25, "length": 3.0},
         "polyline": {"kind": "polyline", "points": [[-2.25, -1.0], [0.0, 0.25], [1.75, -0.75], [2.5, 2.0]]},
         "path": {"kind": "path", "points": [[-2.25, -1.0, 0.5], [0.0, 0.25, Z0], [1.75, -0.75, Z0], [2.5, 2.0, 3.0]]},
         "pset": {
             "kind": "pset",
-            "points": [[x * 0.5 - 1.0, y * 0.5 - 1.0, Z0] for x in range(6) for y in range(6)] + [[0.25, 0.25, 0.0], [0.5, 0.0, 2.25], [1.0, 0.5, 0.0]],
+            "points": [[x * 0.5 - 1.0, y * 0.5 - 1.0, Z0] for x in range(6) for y in range(6)] + [[0.25, 0.25, 0.0], [0.5, 0.0, 2.25], [1.0, 0.5, 0.0], [0.875, -0.25, Z0], [-1.125, -0.375, Z0]],
+            "anchor_z": Z0,  # the last two points lie on path1 / above polyline1
         },
         "grid": {"kind": "grid", "grid": [[0, 1, 0, 0], [0, 0, 1, 0], [1, 0, 0, 0]], "Ax": 1.0, "Ay": 1.0, "Bx": -1.5, "By": -1.0},
-        "footprint": {"kind": "footprint", "exterior": [[-1.0, -1.5], [2.0, -1.5], [2.0, 1.25], [-1.0, 1.25]], "holes": []},
+        "footprint": {"kind": "footprint", "exterior": [[-0.75, -1.0], [2.0, -1.0], [2.0, 1.25], [-0.75, 1.25]], "holes": []},
     }
     out = [(k + "1", v) for k, v in s1.items()]
     if tier == "thorough":
@@ -96,32 +97,48 @@ def shapes(tier):
 # ---------------------------------------------------------------------------------
 # building the library's regions from specs
 # ---------------------------------------------------------------------------------
-def build(spec):
+LAZY_KINDS = ("box", "spheroid", "mesh", "polygon", "circle", "sector", "rect")
+
+
+def build(spec, lazy=False):
+    """The library's region for a spec.  lazy=True makes one scalar parameter a random
+    value with a single possible outcome (Range(v, v)), so that the region is built
+    lazily and operations on it go through the generic Intersection/Union/Difference
+    regions and their sampleGiven re-dispatch."""
     import shapely.geometry as sg
     import trimesh
 
     from scenic.core import regions as R
+    from scenic.core.distributions import Range
     from scenic.core.vectors import Orientation, Vector
 
+    def rnd(v):
+        return Range(v, v) if lazy else v
+
+    def rvec(p):
+        return Vector(p[0], p[1], rnd(p[2]))
+
     k = spec["kind"]
+    if lazy and k not in LAZY_KINDS:
+        raise ValueError(f"no lazy construction for {k}")
     if k in ("box", "spheroid"):
         cls = R.BoxRegion if k == "box" else R.SpheroidRegion
-        return cls(position=Vector(*spec["pos"]), dimensions=tuple(spec["dims"]), rotation=Orientation.fromEuler(*spec.get("ypr", (0, 0, 0))))
+        return cls(position=rvec(spec["pos"]), dimensions=tuple(spec["dims"]), rotation=Orientation.fromEuler(*spec.get("ypr", (0, 0, 0))))
     if k == "mesh":
         V, F = S.raw_mesh(spec)
         tm = trimesh.Trimesh(vertices=V, faces=F)
         cls = R.MeshSurfaceRegion if spec.get("surface") else R.MeshVolumeRegion
-        return cls(tm, position=Vector(*spec["pos"]), dimensions=None if spec.get("dims") is None else tuple(spec["dims"]), rotation=Orientation.fromEuler(*spec.get("ypr", (0, 0, 0))))
+        return cls(tm, position=rvec(spec["pos"]), dimensions=None if spec.get("dims") is None else tuple(spec["dims"]), rotation=Orientation.fromEuler(*spec.get("ypr", (0, 0, 0))))
     if k == "polygon":
-        return R.PolygonalRegion(polygon=sg.Polygon(spec["exterior"], spec.get("holes", [])), z=spec["z"])
+        return R.PolygonalRegion(polygon=sg.Polygon(spec["exterior"], spec.get("holes", [])), z=rnd(spec["z"]))
     if k == "footprint":
         return R.PolygonalFootprintRegion(sg.Polygon(spec["exterior"], spec.get("holes", [])))
     if k == "circle":
-        return R.CircularRegion(Vector(*spec["center"]), spec["r"])
+        return R.CircularRegion(Vector(*spec["center"]), rnd(spec["r"]))
     if k == "sector":
-        return R.SectorRegion(Vector(*spec["center"]), spec["r"], spec["heading"], spec["angle"])
+        return R.SectorRegion(Vector(*spec["center"]), rnd(spec["r"]), spec["heading"], spec["angle"])
     if k == "rect":
-        return R.RectangularRegion(Vector(*spec["pos"]), spec["heading"], spec["width"], spec["length"])
+        return R.RectangularRegion(Vector(*spec["pos"]), spec["heading"], rnd(spec["width"]), spec["length"])
     if k == "polyline":
         return R.PolylineRegion(points=[tuple(p) for p in spec["points"]])
     if k == "path":
@@ -270,12 +287,19 @@ def do_op(item):
     n3, n2 = item.get("n3", 7), item.get("n2", 9)
     P, diag = probes_for([oa, ob], n3, n2)
     margin = 1e-3 * diag
-    A, B = build(sa), build(sb)
+    lz = item.get("lazy", "")
+    A, B = build(sa, lazy="A" in lz), build(sb, lazy="B" in lz)
     TA, TB = tname(A), tname(B)
-    pre = f"{op}:{TA}-x-{TB}"
+    pre = f"{op}:{TA}-x-{TB}" if not lz else f"{op}:lazy{lz}:{TA}-x-{TB}"
     res["pair"] = f"{TA}-x-{TB}"
     try:
         Rg = getattr(A, op)(B)
+        if lz:
+            from scenic.core.distributions import needsSampling
+
+            res["counts"]["lazy_results"] = int(needsSampling(Rg))
+            if needsSampling(Rg):
+                Rg = Rg.sample()  # every random parameter has a single possible value
     except Exception as e:  # noqa
         if is_refusal(e):
             res["refused"] += 1
@@ -385,10 +409,9 @@ def do_op(item):
             tolv = 1e-5 + oa.band + ob.band
             note("dist-wrong-value", np.abs(o.dist - want) > tolv * (1 + want), "distanceTo(A u B) != min(d(A), d(B))", ("expected", want), ("observed", o.dist))
     if found:
-        order = ["z-dropped", "member-missing", "nonmember-included", "dist-positive-on-member", "dist-zero-on-nonmember", "aabb-excludes-member", "dist-wrong-value", "z-ignored", "z-ignored-distance"]
+        # containsPoint ignoring heights comes last: it must never hide another discrepancy
+        order = ["z-dropped", "member-missing", "nonmember-included", "dist-positive-on-member", "dist-zero-on-nonmember", "aabb-excludes-member", "dist-wrong-value", "z-ignored-distance", "z-ignored"]
         prim = next(t for t in order if t in found)
-        if prim == "z-ignored-distance":
-            prim = "z-ignored"
         viol(res, f"{pre}:{prim}", f"{desc0}; {int(ok.sum())} probes judged.\n" + "\n".join(found[t] for t in order if t in found), item)
     # sizes: inclusion-exclusion is checked in the parent from these numbers
     try:
@@ -711,7 +734,7 @@ def do_proj(item):
     mem = oa.member(P)
     ptol = max(oa.proj_tol, 1e-6 * (1 + diag))
     tie = max(10 * margin, 4 * ptol)
-    for d in AXES:
+    for d in [tuple(x) for x in item.get("dirs", AXES)]:
         dv = np.array(d, float)
         t, edged = oa.line_hits(P, dv)
         for i in range(len(P)):
@@ -771,10 +794,76 @@ def do_proj(item):
 
 
 # ---------------------------------------------------------------------------------
+# item: inclusion-exclusion of sizes
+# ---------------------------------------------------------------------------------
+def do_sizes(item):
+    warnings.filterwarnings("ignore")
+    from scenic.core import regions as R
+
+    sa, sb = item["a"], item["b"]
+    res = new_res(item)
+    A, B = build(sa), build(sb)
+    res["pair"] = f"{tname(A)}-x-{tname(B)}"
+    generic = (R.IntersectionRegion, R.UnionRegion, R.DifferenceRegion)
+
+    def size_of(op):
+        try:
+            X = getattr(build(sa), op)(build(sb))
+        except Exception:  # judged by the op items
+            return None
+        if isinstance(X, R.EmptyRegion):
+            return 0.0
+        if isinstance(X, generic) or X.dimensionality != A.dimensionality or X.size is None:
+            return None
+        return float(X.size)
+
+    a, b = float(A.size), float(B.size)
+    u, i, d = size_of("union"), size_of("intersect"), size_of("difference")
+    tol = 1e-3 * (a + b)
+    if u is not None and i is not None:
+        res["judged"] += 1
+        res["counts"]["incl_excl"] = 1
+        if abs(u + i - a - b) > tol:
+            viol(res, f"size:{res['pair']}:inclusion-exclusion", f"|A u B| + |A n B| = {u} + {i} but |A| + |B| = {a} + {b}; A={sa}; B={sb}", item)
+    if d is not None and i is not None:
+        res["judged"] += 1
+        res["counts"]["incl_excl"] = res["counts"].get("incl_excl", 0) + 1
+        if abs(d + i - a) > tol:
+            viol(res, f"size:{res['pair']}:difference-plus-intersection", f"|A - B| + |A n B| = {d} + {i} but |A| = {a}; A={sa}; B={sb}", item)
+    return res
+
+
+# ---------------------------------------------------------------------------------
 # work list
 # ---------------------------------------------------------------------------------
 def lowered(spec, dz):
     return S.shifted(spec, 0.0, 0.0, dz)
+
+
+def anchor_z(spec, ora):
+    if "anchor_z" in spec:
+        return float(spec["anchor_z"])
+    lo, hi = ora.aabb()
+    if not (np.isfinite(lo[2]) and np.isfinite(hi[2])):
+        return None
+    return float((lo[2] + hi[2]) / 2)
+
+
+# deliberately degenerate situations that are valid inputs
+def extra_items(n3, n2):
+    # the apex of the sector touches the inner corner of the U-shaped slice of the mesh in one point
+    touch = {"kind": "sector", "center": [0.25, -0.5, Z0], "r": 2.5, "heading": 0.6, "angle": 1.9}
+    mesh = {"kind": "mesh", "cells": U_CELLS, "pos": [0.25, 0.0, 1.5], "dims": [3.0, 3.0, 1.5], "ypr": [0.0, 0.0, 0.0]}
+    # a sector wider than 120 degrees (the library clips its polygon with a kite-shaped mask)
+    wide = {"kind": "sector", "center": [0.75, 0.5, Z0], "r": 2.25, "heading": -2.0, "angle": 3.9}
+    circ = {"kind": "circle", "center": [0.5, 0.25, Z0], "r": 1.75}
+    return [
+        {"t": "op", "cfg": "touch", "names": ["meshvolU", "sector-touching"], "a": mesh, "b": touch, "op": "intersect", "n3": n3, "n2": n2},
+        {"t": "op", "cfg": "touch", "names": ["sector-touching", "meshvolU"], "a": touch, "b": mesh, "op": "intersect", "n3": n3, "n2": n2},
+        {"t": "prim", "name": "sector-wide", "a": wide, "n3": n3, "n2": n2},
+        {"t": "op", "cfg": "wide", "names": ["circle1", "sector-wide"], "a": circ, "b": wide, "op": "intersect", "n3": n3, "n2": n2},
+        {"t": "op", "cfg": "wide", "names": ["sector-wide", "circle1"], "a": wide, "b": circ, "op": "difference", "n3": n3, "n2": n2},
+    ]
 
 
 def plan(tier):
@@ -785,10 +874,14 @@ def plan(tier):
     for n, s in shp:
         items.append({"t": "prim", "name": n, "a": s, "n3": n3, "n2": n2})
         if s["kind"] in ("box", "spheroid", "mesh"):
-            items.append({"t": "proj", "name": n, "a": s, "n3": 7 if tier == "quick" else 9, "n2": 5})
+            for d in AXES:
+                items.append({"t": "proj", "name": n, "a": s, "dirs": [list(d)], "n3": 8 if tier == "quick" else 10, "n2": 5})
     if tier == "thorough":
-        # extra non-convex / rotated meshes for projection
-        items.append({"t": "proj", "name": "meshvolU-rot", "a": {"kind": "mesh", "cells": U_CELLS, "pos": [0.25, 0.0, 1.5], "dims": [3.0, 3.0, 1.5], "ypr": [0.0, 0.0, 0.0], "surface": True}, "n3": 9, "n2": 5})
+        # a rotated non-convex volume: axis rays are oblique to every face
+        rot = {"kind": "mesh", "cells": U_CELLS, "pos": [0.25, 0.0, 1.5], "dims": [3.0, 3.0, 1.5], "ypr": [0.35, 0.2, -0.15]}
+        for d in AXES:
+            items.append({"t": "proj", "name": "meshvolU-rot", "a": rot, "dirs": [list(d)], "n3": 10, "n2": 5})
+    items += extra_items(n3, n2)
     for na, sa in shp:
         for nb, sb in shp:
             if na == nb:  # same kind and shape: use a displaced copy as second operand
@@ -798,11 +891,11 @@ def plan(tier):
             # kinds locked at z = 0 can only really overlap a partner brought down to z = 0
             if oa.z_locked != ob.z_locked:
                 if oa.z_locked:
-                    zc = (ob.aabb()[0][2] + ob.aabb()[1][2]) / 2 if np.isfinite(ob.aabb()[0][2]) else None
+                    zc = anchor_z(sb, ob)
                     if zc:
                         cfgs.append(("lowered", sa, lowered(sb, -zc)))
                 else:
-                    zc = (oa.aabb()[0][2] + oa.aabb()[1][2]) / 2 if np.isfinite(oa.aabb()[0][2]) else None
+                    zc = anchor_z(sa, oa)
                     if zc:
                         cfgs.append(("lowered", lowered(sa, -zc), sb))
             # two planar regions at different heights
@@ -811,6 +904,17 @@ def plan(tier):
             for cfg, a, b in cfgs:
                 for op in OPS:
                     items.append({"t": "op", "cfg": cfg, "names": [na, nb], "a": a, "b": b, "op": op, "n3": n3, "n2": n2})
+            # lazily constructed operands (first shape set only)
+            if na.endswith("1") and nb.endswith("1"):
+                cheap = ("box", "polygon", "circle", "sector", "rect")
+                la = sa["kind"] in (cheap if tier == "quick" else LAZY_KINDS) and not sa.get("surface")
+                lb = sb["kind"] in (cheap if tier == "quick" else LAZY_KINDS) and not sb.get("surface")
+                modes = (["A"] if la else []) + (["B"] if lb and not la else []) + (["AB"] if la and lb and tier == "thorough" else [])
+                for lz in modes:
+                    for op in OPS:
+                        items.append({"t": "op", "cfg": "std", "lazy": lz, "names": [na, nb], "a": sa, "b": sb, "op": op, "n3": 5, "n2": n2})
+            if oa.dim == ob.dim and oa.judge_metric and ob.judge_metric and sa["kind"] != "footprint" and sb["kind"] != "footprint":
+                items.append({"t": "sizes", "names": [na, nb], "a": sa, "b": sb})
             # relations
             rc = []
             ov = [c for c in cfgs if c[0] in ("std", "lowered")]
@@ -836,7 +940,7 @@ def plan(tier):
 
 def dispatch(item):
     try:
-        return {"op": do_op, "prim": do_prim, "rel": do_rel, "proj": do_proj}[item["t"]](item)
+        return {"op": do_op, "prim": do_prim, "rel": do_rel, "proj": do_proj, "sizes": do_sizes}[item["t"]](item)
     except Exception as e:  # harness-side failure: never hide it
         import traceback
 
@@ -847,9 +951,11 @@ def dispatch(item):
 
 def label(item):
     if item["t"] == "op":
-        return f"{item['names'][0]}.{item['op']}({item['names'][1]})[{item['cfg']}]"
-    if item["t"] == "rel":
-        return f"rel({item['names'][0]},{item['names'][1]})"
+        return f"{item['names'][0]}.{item['op']}({item['names'][1]})[{item['cfg']}{'/lazy' + item['lazy'] if item.get('lazy') else ''}]"
+    if item["t"] in ("rel", "sizes"):
+        return f"{item['t']}({item['names'][0]},{item['names'][1]})"
+    if item["t"] == "proj":
+        return f"proj({item['name']},{item.get('dirs')})"
     return f"{item['t']}({item['name']})"
 
 
@@ -862,9 +968,9 @@ def run(ctx):
     informative = uninformative = 0
     uninf = []
     result_types = {}
-    sizes = {}
-    per_type = {"op": 0, "prim": 0, "rel": 0, "proj": 0}
+    per_type = {"op": 0, "prim": 0, "rel": 0, "proj": 0, "sizes": 0}
     nviol = {}
+    allv = []
     for r in ctx.pmap(dispatch, items, chunksize=2):
         it = r["item"]
         if "harness_error" in r:
@@ -884,38 +990,26 @@ def run(ctx):
                 uninf.append(label(it))
             key = f"{it['op']}:{r['pair']}"
             result_types[key] = r["result_type"]
-            if it["cfg"] == "std":
-                sizes[(it["names"][0], it["names"][1], it["op"])] = (r.get("size"), r.get("dimensionality"), r["result_type"])
-        if it["t"] == "prim":
-            sizes[(it["name"],)] = (r.get("size"), None, r["pair"])
-            if r["informative"]:
-                informative += 1
+        if it["t"] == "prim" and r["informative"]:
+            informative += 1
         for sig, desc, case in r["violations"]:
-            nviol[sig] = nviol.get(sig, 0) + 1
-            if nviol[sig] <= 3:
-                ctx.violation(sig, desc, case)
-    # inclusion-exclusion of sizes where the library produced concrete same-dimensional results
-    incl = 0
-    for (k, v) in list(sizes.items()):
-        if len(k) != 3 or k[2] != "union":
-            continue
-        a, b = k[0], k[1]
-        su, du, tu = v
-        si, di, ti = sizes.get((a, b, "intersect"), (None, None, None))
-        sd, dd, td = sizes.get((a, b, "difference"), (None, None, None))
-        sa_, sb_ = sizes.get((a,), (None,))[0], sizes.get((b,), (None,))[0]
-        if None in (su, sa_, sb_) or any(math.isinf(x) for x in (su, sa_, sb_)):
-            continue
-        if ti == "EmptyRegion":
-            si, di = 0.0, du
-        if si is None or di != du or tu in ("UnionRegion",) or ti in ("IntersectionRegion",):
-            continue
-        incl += 1
-        if abs(su + si - sa_ - sb_) > 0.02 * max(1.0, sa_ + sb_):
-            ctx.violation(f"size:inclusion-exclusion:{tu}", f"|A u B| + |A n B| = {su} + {si} but |A| + |B| = {sa_} + {sb_} for A={a}, B={b}", {"item": None, "sig": "size"})
+            allv.append((sig, desc, case))
+    # a lazily built operand re-dispatches to the eager code once sampled: report a lazy
+    # violation only when the eager run of the same (pair, op) does not show the same thing
+    eager = {sig for sig, _, _ in allv if ":lazy" not in sig}
+    lazy_same = 0
+    for sig, desc, case in allv:
+        if ":lazy" in sig:
+            parts = sig.split(":")
+            if ":".join(p for p in parts if not p.startswith("lazy")) in eager:
+                lazy_same += 1
+                continue
+        nviol[sig] = nviol.get(sig, 0) + 1
+        if nviol[sig] <= 3:
+            ctx.violation(sig, desc, case)
     if tot["judged"] == 0 or informative == 0:
         raise HarnessError("vacuous: no judged probe / no informative (pair, op)")
-    need = ["intersects_True", "intersects_False", "contains_True", "contains_False", "dist_zero", "dist_pos", "two-sided", "two-sided-nearest-behind", "one-sided", "nohit", "member"]
+    need = ["lazy_results", "incl_excl", "intersects_True", "intersects_False", "contains_True", "contains_False", "dist_zero", "dist_pos", "two-sided", "two-sided-nearest-behind", "one-sided", "nohit", "member"]
     if ctx.tier == "thorough":
         need.append("multi_hit")
     missing = [k for k in need if not counts.get(k)]
@@ -940,10 +1034,11 @@ def run(ctx):
         uninformative_items=uninf[:40],
         distance_probes_judged=tot["dist_judged"],
         aabbs_judged=tot["aabb_judged"],
-        inclusion_exclusion_checked=incl,
+        inclusion_exclusion_checked=counts.get("incl_excl", 0),
         situation_counts=dict(sorted(counts.items())),
         result_types=dict(sorted(result_types.items())),
         violation_signatures=dict(sorted(nviol.items())),
+        lazy_violations_identical_to_eager=lazy_same,
         bounds={"tier": ctx.tier, "shapes": len(shapes(ctx.tier)), "lattice": "7^3+9^2/plane" if ctx.tier == "quick" else "10^3+15^2/plane"},
     )
     ctx.assumptions += [
